@@ -51,6 +51,10 @@ func genAgg(seed uint64, tier string, emphasis int) *plan.Plan {
 	nk := 2 + r.IntN(3)
 	pl.Cfg["keys"] = int64(nk)
 	pl.Cfg["workers"] = []int64{1, 2, 2, 3}[r.IntN(4)]
+	keymode := r.IntN(4) == 0
+	if keymode {
+		pl.Cfg["keymode"] = 1
+	}
 	activeMs := []int64{100, 500, 1000, 5000, 60000}[r.IntN(5)]
 	inactiveMs := []int64{150, 500, 3000, 5000, 90000}[r.IntN(5)]
 	pl.Cfg["active_ms"], pl.Cfg["inactive_ms"] = activeMs, inactiveMs
@@ -76,6 +80,9 @@ func genAgg(seed uint64, tier string, emphasis int) *plan.Plan {
 		}
 		pl.Cfg[fmt.Sprintf("cat%d", k)] = int64(cat)
 		pl.Cfg[fmt.Sprintf("v6%d", k)] = int64(r.IntN(2))
+		if keymode && k%2 == 1 {
+			pl.Cfg[fmt.Sprintf("v6%d", k)] = pl.Cfg[fmt.Sprintf("v6%d", k-1)] // the pair shares its addresses
+		}
 		f := &genFlow{cat: cat, start: uint32(1 + r.IntN(1000))}
 		if catNeedsCorrelation(cat) && r.IntN(2) == 0 {
 			f.startOff = [2]uint32{uint32(r.IntN(4)), uint32(r.IntN(12))}
